@@ -39,7 +39,9 @@ class Object(metaclass=ObjectMeta):
     description: ClassVar[str]
 
     def __init_subclass__(cls, *args, **kwargs):
-        if cls.__doc__ is not None and cls.description is NotPassed():
+        # A docstring is never inherited: one that is there is the class's own
+        # (a `description` keyword is applied afterwards and takes precedence).
+        if cls.__doc__ is not None:
             cls.description = cls.__doc__
 
     def __new__(
